@@ -29,7 +29,10 @@ THEOREMS = ["Kdf.Props.C15." + t for t in (
     "chunk_roundtrip", "diskdumpReadPage_balanced", "cacheGetPage_balanced", "diskdumpGetPage_balanced", "readLocked_balanced",
     "addrxlatGetPage_balanced", "addrxlatPage_roundtrip", "session_balanced",
     "fcacheGetFb_balanced", "fcacheGetFb_roundtrip", "xenMapScan_balanced", "getCacheBuf_balanced", "cleanupCache_balanced",
-    "ctxAddCb_balanced", "ctxDelCb_balanced", "axSession_balanced", "axSession_delcb_last", "xenMapScan_balanced_fresh")]
+    "ctxAddCb_balanced", "ctxDelCb_balanced", "axSession_balanced", "axSession_delcb_last", "xenMapScan_balanced_fresh")] + [
+    # libaddrxlat's read cache under a RE-ENTRANT get-page callback (model Kdf.Model.RCache, shared with C09)
+    "Kdf.Props.C09.read_gives_back", "Kdf.Props.C09.filling_slot_never_chosen", "Kdf.Props.C09.filling_slot_untouched",
+    "Kdf.Props.C09.filling_marks_restored"]
 
 WRAP = ("-Wl,--wrap=malloc,--wrap=calloc,--wrap=realloc,--wrap=strdup,--wrap=free," +
         ",".join("--wrap=_kdumpfile_priv_cache_" + n for n in ("get_entry", "put_entry", "insert", "discard")))
@@ -704,6 +707,17 @@ def portable(text):
 def replay(R, path):
     """python3 tools/check.py C15 --replay replays/C15-xxxx.json : run the recorded conversation on the current tree"""
     d = json.load(open(path))
+    if d.get("stream") == "sys":
+        from props import c09
+        exe = c09.sys_harness(R)
+        rc, out, err = R.run_harness(exe, stdin_text=d["input"], timeout=120, env={"ASAN_OPTIONS": "detect_leaks=1:abort_on_error=0"})
+        for o in kdf.obs(out):
+            print(o)
+        bad = reent_lost(kdf.obs(out))
+        if "LeakSanitizer" in err:
+            print(err[err.index("LeakSanitizer") - 60:][:1500])
+        print("replay: %s" % ("property violated (%d buffer(s) never given back)" % bad[1] if bad else "no violation on this tree"))
+        return 1 if bad else 0
     if "input" not in d:
         print("replay has no input (proof or correspondence failure): %s" % d.get("what")); return 2
     for name, b in d.get("files", {}).items():
@@ -726,6 +740,59 @@ def replay(R, path):
         print(err[-2500:])
     print("replay: %s" % ("property violated" if fl else "no violation on this tree"))
     return 1 if fl else 0
+
+
+# ---------------------------------------------------------------- (e) read cache under a re-entrant get-page callback
+def reent_lost(obs_lines):
+    """index and count of the first `newctx` observation that reports buffers never given back"""
+    for k, o in enumerate(obs_lines):
+        m = re.match(r"newctx lost=(-?\d+)", o)
+        if m and int(m.group(1)) != 0:
+            return k, int(m.group(1))
+    return None
+
+
+def reent_phase(R, nblocks):
+    """the `reent` blocks of the C09 stream (harness/s_sys.c: a get-page callback that reads through the same context before it
+    delivers a page; direct reads and conversions; cold and warm cache): when the context is gone every buffer the callback
+    delivered must have been given back with put_page.  Returns (failure or None, counters)."""
+    from props import c09
+    exe = c09.sys_harness(R)
+    # corpus first: the script of the defect report (fix: "a nested read must not recycle a read cache slot that is being filled")
+    blocks = [["clr", "newsys", "mem 7 4294967295 0 15 0 0", "rcaps 1", "reent 0 32:16640", "newctx", "rd 0 131072", "newctx"]]
+    blocks += [c09.block_reent(R.rng, 12) for _ in range(nblocks)]
+    lines = [l for b in blocks for l in b]
+    rc, out, err = R.run_harness(exe, stdin_text="\n".join(lines) + "\n", timeout=300)
+    obs = kdf.obs(out)
+    stats = dict(blocks=nblocks, contexts=sum(o.startswith("newctx") for o in obs), reads=sum(o.startswith("rd ") for o in obs),
+                 delivered=sum(int(m.group(1)) for o in obs for m in [re.search(r" got=(\d+)", o)] if m),
+                 nested=sum(1 for o in obs for m in [re.search(r" nest=(\d+)", o)] if m and int(m.group(1)) >= 2))
+    def run1(ls):
+        r, o, e = R.run_harness(exe, stdin_text="\n".join(ls) + "\n", timeout=60)
+        return reent_lost(kdf.obs(o)), r, e
+    for b in blocks:
+        bad, r, e = run1(b)
+        if bad is None and r == 0:
+            continue
+        if bad is None:
+            why = next((l for l in e.split("\n") if "ERROR" in l or "runtime error" in l), e.strip()[:200])
+            return ("libaddrxlat's read cache under a re-entrant get-page callback: the harness did not survive (rc=%s) %s" % (r, why[:200]), b), stats
+        # shrink: cut behind the reporting newctx, then drop every line that is not needed
+        prod = [i for i, l in enumerate(b) if l.split()[0] in c09.PRODUCES]
+        cur = b[:prod[bad[0]] + 1]
+        i = len(cur) - 2
+        while i >= 0:
+            if cur[i].split()[0] in ("rd", "op", "conv", "newctx", "bad", "null", "meth", "map", "reentsys"):
+                cand = cur[:i] + cur[i + 1:]
+                if run1(cand)[0] is not None:
+                    cur = cand
+            i -= 1
+        n = run1(cur)[0][1]
+        return ("a get-page callback that reads through the same context: %d buffer(s) it delivered were never given back with put_page "
+                "although the context is gone (libaddrxlat read cache, get_cache_buf)" % n, cur), stats
+    if rc != 0:
+        return ("the harness did not survive the re-entrant blocks (rc=%s): %s" % (rc, err.strip()[-300:]), lines[:400]), stats
+    return None, stats
 
 
 def fail_sig(msg):
@@ -762,7 +829,7 @@ def minimise(R, exe, S, evalfn):
 
 def run(R):
     facts, changed = R.extract()
-    proof = R.prove(["Kdf.Props.C15"], THEOREMS)
+    proof = R.prove(["Kdf.Props.C15", "Kdf.Props.C09Read"], THEOREMS)
     lib, cflags = R.build_lib()
     exe = R.build_harness("s_res", ["s_res.c", "s_res_ax.c"], lib=lib, cflags=cflags + ["-ffunction-sections", "-fdata-sections"],
                           ldflags=["-Wl,--gc-sections", WRAP])
@@ -943,6 +1010,13 @@ def run(R):
     if led_bad and not any(v[1] is led_bad[0] for v in violations):
         violations.append((led_bad[2], led_bad[0], led_bad[1], led_bad[0].known_key))
 
+    # ---- (e) libaddrxlat's read cache under a re-entrant get-page callback
+    reent_fail, reent_stats = reent_phase(R, 120 if quick else 2500)
+    if reent_fail:
+        R.violation(reent_fail[0], dict(stream="sys", input="\n".join(reent_fail[1]) + "\n", kind="reent",
+                                        how="python3 tools/check.py C15 --replay <this file> feeds `input` to harness/s_sys.c (counts the "
+                                            "callback's deliveries and put_page calls per context; also run under LeakSanitizer)"))
+
     # ---- verdicts
     reported = set()
     for (msg, S, i, key) in violations:
@@ -989,8 +1063,13 @@ def run(R):
                     "table straddles host pages, opened under every mmap policy and with a failing first mapping; (d) sessions on the "
                     "dump's translation context: reads through libaddrxlat's read cache (hits, evictions, failing pages/allocations), "
                     "application callback records added and removed in any order (not only the top one), the dump freed while records "
-                    "and cached pages are still in place -- read-cache slots and MRU ring compared with the model after every call; non-trivial = distinct (call, event-kind set, status) classes "
+                    "and cached pages are still in place -- read-cache slots and MRU ring compared with the model after every call; (e) libaddrxlat's "
+                    "read cache under a RE-ENTRANT get-page callback (the `reent` blocks of the C09 stream through harness/s_sys.c: self-hosted "
+                    "frame-table entries, chains, mutual pairs, cold and warm cache, direct reads and whole conversions): deliveries and put_page "
+                    "calls of the callback are counted per context, nothing may be outstanding once the context is destroyed (model side: "
+                    "Kdf.Model.RCache with read_gives_back; the line-by-line correspondence of these blocks is C09's); non-trivial = distinct (call, event-kind set, status) classes "
                     "of the compared traces",
+               reentrant_read_cache=reent_stats,
                traces_validated_against_impl=len(impl_t), correspondence_first_diff=mism, ledger_checked_traces=len(check_in),
                fault_reruns=nfault, api_walks=napi, environment_answers=orckinds, decodability_corrected_by_discovery=dec_disagree, case_kinds=dict(sorted(kinds.items(), key=lambda kv: -kv[1])[:60]),
                samples=[dict(op=where[k][0].ops[where[k][1]]["line"], trace=impl_t[k][:160]) for k in (0, len(impl_t) // 2) if k < len(impl_t)])
